@@ -119,7 +119,29 @@ func (f *Facts) holds(r Req) bool {
 			}
 			return ok
 		}
-		return f.HasBool(isKey(r.A.Key()), r.Pos) != nil
+		if f.HasBool(isKey(r.A.Key()), r.Pos) != nil {
+			return true
+		}
+		// a pure boolean helper: its body, when that is a conjunction of literals under this polarity
+		if r.A.K == KCall && r.A.Fn != nil && curProg != nil && curProg.helperBF(r.A.Fn) != nil && f.depth < 3 {
+			spec := atomBF(r.A, r.Pos)
+			lits, complete := conjLiterals(spec, true)
+			if !complete || len(lits) == 0 {
+				return false
+			}
+			f.depth++
+			defer func() { f.depth-- }()
+			for _, lt := range lits {
+				if lt.atom.Src == nil || lt.atom.Src.Key() == r.A.Key() {
+					return false
+				}
+				if !f.holds(Req{Kind: "bool", A: lt.atom.Src, Pos: lt.atom.SrcPos == lt.pos}) {
+					return false
+				}
+			}
+			return true
+		}
+		return false
 	case "same":
 		if f.HasSame(isKey(r.A.Key()), isKey(r.B.Key()), r.Pos) != nil {
 			return true
